@@ -4,6 +4,7 @@ import (
 	"context"
 	"errors"
 	"fmt"
+	"math"
 	"strconv"
 	"strings"
 	"sync"
@@ -17,9 +18,9 @@ import (
 	"github.com/jrhy/s3db/internal"
 	"github.com/jrhy/s3db/kv"
 	"github.com/jrhy/s3db/kv/crdt"
+	v1proto "github.com/jrhy/s3db/proto/v1"
 	"github.com/jrhy/s3db/sql"
 	"github.com/jrhy/s3db/sql/parse"
-	v1proto "github.com/jrhy/s3db/proto/v1"
 	sqlTypes "github.com/jrhy/s3db/sql/types"
 	"github.com/jrhy/s3db/writetime"
 )
@@ -55,6 +56,18 @@ type VirtualTable struct {
 }
 
 const SQLiteTimeFormat = "2006-01-02 15:04:05"
+
+// Times are kept as nanoseconds since 1970 in an int64, which holds 1677-09-21 to
+// 2262-04-11. Beyond that UnixNano wraps around, and later is no longer greater.
+var (
+	minTime = time.Unix(0, math.MinInt64)
+	maxTime = time.Unix(0, math.MaxInt64)
+)
+
+// TimeInRange tells if t can be used as a write time.
+func TimeInRange(t time.Time) bool {
+	return !t.Before(minTime) && !t.After(maxTime)
+}
 
 func New(ctx context.Context, args []string) (*VirtualTable, error) {
 	var err error
@@ -922,6 +935,10 @@ func Vacuum(ctx context.Context, tableName string, beforeTime time.Time) error {
 		return fmt.Errorf("table not found: %s", tableName)
 	}
 
+	if beforeTime.Before(time.Unix(0, 0)) || !TimeInRange(beforeTime) {
+		// the rows vacuum removes are marked with a time before every cutoff
+		return fmt.Errorf("before_time out of range (1970-01-01 to 2262-04-11): %s", beforeTime.Format(SQLiteTimeFormat))
+	}
 	if !table.S3Options.ReadOnly && table.Tree.Root.IsDirty() {
 		return fmt.Errorf("table has uncommitted changes: %s", tableName)
 	}
